@@ -18,7 +18,8 @@ CLAIMED = {
               'WINDOW-ALIGN: decoder window a multiple of 16. WINDOW-PRESET: the window is not shrunk below a preset dictionary. '
               'PARSER-REPS: the optimal parser rotates its copy of the four repeat distances exactly as the coder does, for '
               'rep index 0..3 and for a match (constant-propagating evaluation of both functions, loops over concrete '
-              'ranges unrolled).',
+              'ranges unrolled). FINDER-LOOKAHEAD: a match finder holds a position back until the look-ahead its insertion '
+              'routine compares is there (binary tree: nice_len; hash chains: the hash width).',
               'match finder/window invariants (matches only inside the retained window), look-ahead bookkeeping, the optimal '
               'parser\'s prices and node links, range-coder carry and flush length, 31-bit renormalisation, arithmetic offsets of symbols (len - 2, slot '
               'bases): all depend on run-time values.'),
@@ -73,14 +74,16 @@ CLAIMED = {
               'the BCJ filters wraps), READ-ERR-LATCH (a reader owning LZ decoder state, or swapping its own source, is never run '
               'again after an Err: LZMAReader, LZMA2Reader, LZIPReader, XZReader), WINDOW-ALIGN (window never empty), RANGE-ORDER '
               '(all 20 two-sided slice ranges on the decoding side are ordered by construction or by a guard), ERR-SLOT (see C05: '
-              'a failing source can no longer feed the LZ decoder zeros without end).',
+              'a failing source can no longer feed the LZ decoder zeros without end), SCAN-PROGRESS (both backward scans of '
+              'LZIPReaderMT move their position down by >= 1 in every round).',
               'index bounds inside the LZ window and BCJ2 state machine, loop termination, checked BCJ address arithmetic on data '
               'bytes (inside loops).'),
     'C07': _c('static: dominance rule on impl Read::read + I/O count classification',
               'ZERO-READ (empty-buffer guard dominates an inner read whose zero count mutates the reader) and IO-COUNT W2 '
               '(transforming writers never report a partial count); PENDING-PAIR (every absolute move of the LZ encoder read limit '
               're-processes the pending bytes on all paths) and LOOKAHEAD-TWIN (one look-ahead reserve: limit formula, its guard, '
-              'the window-move trigger and the buffer-size formula agree).',
+              'the window-move trigger and the buffer-size formula agree); FINDER-LOOKAHEAD (see C01: what a flush in the middle '
+              'of the data may let into the match finder).',
               'numeric relations of the LZ window beyond the two structural rules. TAIL-FORWARD (a transforming writer never forwards '
               'the tail its transform did not process) reports the BCJWriter defect as a known finding.'),
     'C08': _c('static: ordering/guard rules on the four MT pipelines + control-byte value sets',
@@ -95,7 +98,8 @@ CLAIMED = {
               'returned by every later call), EOF-MEANS-END (source EOF without the terminator is an error), ERR-SWALLOW-MT, '
               'SINK-ERR-STICKY (a failed sink write of a dequeued unit moves the writer to its error state), PANIC-WAKE (a worker '
               'that unwinds while holding a unit posts to the result channel through a drop guard), WRITE-LOOP-PROGRESS (a write-loop '
-              'iteration that copies nothing still reaches the dispatch call; the room left in the unit is measured inside the loop).',
+              'iteration that copies nothing still reaches the dispatch call; the room left in the unit is measured inside the loop), '
+              'SCAN-PROGRESS (see C06).',
               'progress of back-pressure loops, value relations between sequence counters.'),
     'C10': _c('static: lock-set analysis, condvar predicate discipline, call-graph effects',
               'CV-LOCK, CV-NOTIFY (every predicate write is followed by a notify on all paths), LOCK-SCOPE, DROP-CLOSE, SPAWN-BOUND '
